@@ -255,8 +255,20 @@ where
     check_null(&t, c.cols, &cols_n, "null_space()")?;
     let nm = a.null_space_matrix();
     ensure!(nm.nr_columns() == c.cols - t.rank, "null_space_matrix() has {} columns, expected {}", nm.nr_columns(), c.cols - t.rank);
+    ensure!(nm.nr_rows() == c.cols, "null_space_matrix() has {} rows for a matrix with {} columns (shape {}x{})", nm.nr_rows(), c.cols, nm.nr_rows(), nm.nr_columns());
     if c.cols - t.rank > 0 {
         check_null(&t, c.cols, &lower_vec::<B>(&nm)?, "null_space_matrix()")?;
+    }
+    // the kernel matrix fed back into the crate: its columns are independent, so its transpose has a kernel
+    // of dimension rank(A); the result of solve() has the shape that lets it be stacked next to the kernel
+    {
+        // (not guarded: a panic is judged by the runner like one of the calls above - machine-integer overflow is a discard)
+        let back = nm.transpose().null_space_matrix();
+        ensure!(back.nr_columns() == t.rank && back.nr_rows() == c.cols, "the transpose of null_space_matrix() ({}x{}) has a kernel matrix of shape {}x{}, expected {}x{} (the kernel columns are independent)", nm.nr_columns(), nm.nr_rows(), back.nr_rows(), back.nr_columns(), c.cols, t.rank);
+        let r2 = nm.rank();
+        ensure!(r2 == c.cols - t.rank, "rank(null_space_matrix()) = {}, expected columns - rank = {}", r2, c.cols - t.rank);
+        let stacked = VecMatrix::<B::T>::identity(c.cols).hstack(&nm);
+        ensure!(stacked.nr_rows() == c.cols && stacked.nr_columns() == 2 * c.cols - t.rank, "hstack(identity, null_space_matrix()) has shape {}x{}", stacked.nr_rows(), stacked.nr_columns());
     }
     // solve
     match a.solve(&b) {
